@@ -351,8 +351,18 @@ pub fn run_recv(args: &[String]) -> i32 {
                 stream.extend_from_slice(f);
             }
             let mut wr = cp.peer.wr;
+            // "slow": the peer idles for 60 % of the receiver's read timeout, sends the length prefix of the first frame alone,
+            // pauses for another 60 %, then sends the rest: no single wait exceeds the timeout
+            let slow = sc["slow"].as_bool().unwrap_or(false);
             let writer = tokio::spawn(async move {
-                if cut == 0 {
+                if slow && stream.len() > 4 {
+                    tokio::time::sleep(Duration::from_millis(180)).await;
+                    let _ = wr.write_all(&stream[..4]).await;
+                    let _ = wr.flush().await;
+                    tokio::time::sleep(Duration::from_millis(180)).await;
+                    let _ = wr.write_all(&stream[4..]).await;
+                    let _ = wr.flush().await;
+                } else if cut == 0 {
                     let _ = wr.write_all(&stream).await;
                     let _ = wr.flush().await;
                 } else {
@@ -375,7 +385,8 @@ pub fn run_recv(args: &[String]) -> i32 {
                 for _ in 0..(n_frames + 2) {
                     let r = match rh.as_mut() {
                         Some(h) => Connection::receive_message_from_read_half(h, Duration::from_millis(300)).await,
-                        None => match tokio::time::timeout(Duration::from_millis(300), conn.receive_message()).await {
+                        // (the outer limit is the harness' own patience, not a read timeout of the library)
+                        None => match tokio::time::timeout(Duration::from_millis(if slow { 1500 } else { 300 }), conn.receive_message()).await {
                             Ok(r) => r,
                             Err(_) => {
                                 r2.lock().unwrap().push(json!({"k": "quiet"}));
